@@ -955,4 +955,82 @@ theorem premisesB_sound (p : Char → Bool) (g : VIn) (outer : List S) (h : prem
     · exact Or.inl h
     · exact Or.inr ⟨by simpa using h4, not_bindable_of g n h5⟩
 
+
+/-! ### field names never collide with the template's own names -/
+
+/-- a field variable is none of the template's own locals and none of its outside names, whatever the field is called -/
+theorem fieldVar_fresh (m : S) : fieldVar m ∉ fixedLocals ∧ fieldVar m ∉ allOuter := by
+  have h1 : ∀ x ∈ fixedLocals, x.getLast? ≠ some 'v' := by decide
+  have h2 : ∀ x ∈ allOuter, x.getLast? ≠ some 'v' := by decide
+  exact ⟨fun h => h1 _ h (getLast_fieldVar' m), fun h => h2 _ h (getLast_fieldVar' m)⟩
+
+theorem fieldVar_inj (a b : S) (h : fieldVar a = fieldVar b) : a = b := by
+  simp only [fieldVar, List.cons.injEq, true_and] at h
+  exact List.append_cancel_right h
+
+theorem nodup_map_inj {α β : Type} (f : α → β) (hf : ∀ a b, f a = f b → a = b) : ∀ l : List α, l.Nodup → (l.map f).Nodup
+  | [], _ => List.nodup_nil
+  | a :: r, h => by
+    rw [List.nodup_cons] at h
+    rw [List.map_cons, List.nodup_cons]
+    refine ⟨?_, nodup_map_inj f hf r h.2⟩
+    intro hm
+    rw [List.mem_map] at hm
+    obtain ⟨b, hb, he⟩ := hm
+    rw [hf _ _ he] at hb
+    exact h.1 hb
+
+theorem nodup_insertAt (l : List S) (i : Nat) (x : S) (hl : l.Nodup) (hx : x ∉ l) : (insertAt l i x).Nodup := by
+  unfold insertAt
+  have hsplit : l = l.take i ++ l.drop i := (List.take_append_drop i l).symm
+  rw [hsplit] at hl hx
+  rw [List.nodup_append] at hl ⊢
+  obtain ⟨h1, h2, h3⟩ := hl
+  simp only [List.mem_append, not_or] at hx
+  refine ⟨h1, ?_, ?_⟩
+  · rw [List.nodup_cons]; exact ⟨hx.2, h2⟩
+  · intro a ha b hb
+    rcases List.mem_cons.1 hb with h | h
+    · rw [h]; intro hab; rw [hab] at ha; exact hx.1 ha
+    · exact h3 a ha b h
+
+/-- distinct constructor fields get distinct variables, and the catch-all variable is none of them: the variables handed to the
+constructor are pairwise distinct whatever the fields are called -/
+theorem ctorVars_nodup (g : VIn) (hn : (g.fields.map (·.name)).Nodup)
+    (hc : ∀ n idx, g.catchAll = .required n idx → n ∉ g.fields.map (·.name)) : (ctorVars g).Nodup := by
+  have hreq : ((g.fields.filter (fun f => !f.hasDefault)).map (fun f => fieldVar f.name)).Nodup := by
+    have h1 : ((g.fields.filter (fun f => !f.hasDefault)).map (·.name)).Nodup :=
+      List.Nodup.sublist (List.Sublist.map _ (List.filter_sublist)) hn
+    have : (g.fields.filter (fun f => !f.hasDefault)).map (fun f => fieldVar f.name) =
+        ((g.fields.filter (fun f => !f.hasDefault)).map (·.name)).map fieldVar := by simp
+    rw [this]
+    exact nodup_map_inj fieldVar fieldVar_inj _ h1
+  unfold ctorVars
+  cases hca : g.catchAll with
+  | none => exact hreq
+  | dflt n => exact hreq
+  | required n idx =>
+    refine nodup_insertAt _ idx _ hreq ?_
+    intro hm
+    rw [List.mem_map] at hm
+    obtain ⟨f, hf, he⟩ := hm
+    have := fieldVar_inj _ _ he
+    exact hc n idx hca (by rw [← this]; exact List.mem_map.2 ⟨f, (List.mem_filter.1 hf).1, rfl⟩)
+
+/-- every required constructor field is handed to the constructor -/
+theorem ctorVars_complete (g : VIn) (f : VField) (hf : f ∈ g.fields) (hd : f.hasDefault = false) : fieldVar f.name ∈ ctorVars g := by
+  have hreq : fieldVar f.name ∈ (g.fields.filter (fun f => !f.hasDefault)).map (fun f => fieldVar f.name) :=
+    List.mem_map.2 ⟨f, List.mem_filter.2 ⟨hf, by simp [hd]⟩, rfl⟩
+  unfold ctorVars
+  cases g.catchAll with
+  | none => exact hreq
+  | dflt n => exact hreq
+  | required n idx =>
+    simp only [insertAt, List.mem_append, List.mem_cons]
+    have hsplit := List.take_append_drop idx ((g.fields.filter (fun f => !f.hasDefault)).map (fun f => fieldVar f.name))
+    rw [← hsplit] at hreq
+    rcases List.mem_append.1 hreq with h | h
+    · exact Or.inl h
+    · exact Or.inr (Or.inr h)
+
 end DW.GenLoadV1
